@@ -92,7 +92,7 @@ def run(ctx):
     if err:
         ctx.violation("build", "extracted tools do not build: " + err[:200], {"broken": "extraction"}, found_input=False)
         return
-    c02.proofs(ctx, "C10.v")
+    c02.proofs(ctx, "C10.v", deps=("Machine/Chunk.vo", "Machine/FailSticky.vo", "Machine/Drive.vo"))
     quick = ctx.tier == "quick"
     rng = ctx.rng
     jobs = []
@@ -142,6 +142,13 @@ def run(ctx):
                           "in machine state %s byte %s is consumed on the way into the fail state (or FAIL is returned behind it): FAIL is then reported one byte past the offending byte, or only by the next call" % (q, b),
                           {"program": src_, "flags": flags_, "state": q, "byte": b, "input": (path or []) + [int(b)] if b.isdigit() else None,
                            "broken": "certificate fail_entry_ok (hypothesis of c10_fail_at_first_offending_byte)"}, found_input=path is not None)
+        elif w.startswith("failsticky"):
+            q, b = w.split()[1:3]
+            path = mach.reach_path(m_, int(q)) if q.isdigit() else None
+            ctx.violation("fail-sticky:%s:%s:q%s:s%s" % (name_, " ".join(flags_), q, b),
+                          "in machine state %s symbol %s makes a call return FAIL while the machine is left in a state that is not the fail state: a later call can succeed although FAIL has been returned" % (q, b),
+                          {"program": src_, "flags": flags_, "state": q, "symbol": b, "input": (path or []) + [int(b)] if b.isdigit() else None,
+                           "broken": "certificate fail_sticky_ok (hypothesis of c10_fail_is_for_ever)"}, found_input=path is not None)
         elif w != "ok":
             ctx.violation("fail-position-check:%s:%s" % (name_, " ".join(flags_)), "certificate check failed: " + w[:60], {"program": src_, "flags": flags_}, found_input=False)
     ctx.coverage["fail_position_certificates"] = dict(nfp)
